@@ -309,6 +309,17 @@ def wrappers(run, prog, db):
         for pl in (None, 'cell'):
             out.append(('WalletV4Data', f'WalletV4Data[plugins={pl}]', it.construct(prog.cls('WalletV4Data'), [], dict(seqno=sym('seqno'), wallet_id=sym('wallet_id'), public_key=PK,
                         plugins=K(None) if pl is None else cm.leaf(it, 0, 'plugins'))), 'WalletV4Data', ['seqno', 'wallet_id', 'public_key', 'plugins']))
+        if prog.cls('HighloadWalletData', required=False) is not None:
+            for nq in (0, 1, 2):
+                qs = DictV()
+                for j in range(nq):
+                    key = (9 << 32) + j
+                    m_ = it.construct(prog.cls('MessageAny'), [mk_info(it, prog, 'external-in'), K(None), mk_body(it, 8 * (j + 1), 0)], {})
+                    qs.d[key] = it.construct(prog.cls('WalletMessage'), [K(3 + j), m_], {})
+                    qs.keyobj[key] = K(key)
+                hw = it.construct(prog.cls('HighloadWalletData'), [], dict(wallet_id=sym('wallet_id'), last_cleaned=sym('last_cleaned'), public_key=PK, old_queries=qs if nq else K(None)))
+                hw.queries = nq
+                out.append(('HighloadWalletData', f'HighloadWalletData[{nq} old queries]', hw, 'HighloadWalletData', ['wallet_id', 'last_cleaned', 'public_key']))
         out.append(('NftItemData', 'NftItemData', it.construct(prog.cls('NftItemData'), [], dict(index=sym('index'), collection_address=addr(it, prog, 0, 0x55), owner_address=addr(it, prog, -1, 0x66),
                     content=cm.leaf(it, 0, 'content'))), 'NftItemData', ['index', 'collection_address', 'owner_address', 'content']))
         # the same wrapper with anycast addresses (addr_std with `just anycast_info`): what is given is what is written and read back
@@ -341,6 +352,19 @@ def wrappers(run, prog, db):
             back = it.call(it.getattr(prog.cls(cname), 'deserialize'), [cm.call_method(it, cell, 'begin_parse')], {})
             given = getattr(inst, 'given', {})
             diffs = [f for f in fields if attr_key(it, given.get(f, inst.attrs.get(f))) != attr_key(it, back.attrs.get(f) if isinstance(back, Inst) else None)]
+            if cname == 'HighloadWalletData':
+                want_q = inst.attrs.get('old_queries')
+                got_q = back.attrs.get('old_queries') if isinstance(back, Inst) else None
+                wk = sorted(want_q.d) if isinstance(want_q, DictV) else []
+                gk = sorted(k_.v if isinstance(k_, K) else repr(k_) for k_ in got_q.keyobj.values()) if isinstance(got_q, DictV) else []
+                if wk != gk:
+                    diffs.append(f'old_queries (keys given {wk}, read back {gk})')
+                else:
+                    for k_ in wk:
+                        a_, b_ = want_q.d[k_], [v_ for kk, v_ in got_q.d.items() if got_q.keyobj[kk].v == k_][0]
+                        if not (isinstance(b_, Inst) and attr_key(it, a_.attrs.get('send_mode')) == attr_key(it, b_.attrs.get('send_mode'))
+                                and isinstance(b_.attrs.get('message'), Inst) and compare_msg(it, a_.attrs['message'], b_.attrs['message']) is None):
+                            diffs.append(f'old_queries[{k_}]')
             if cname == 'CurrencyCollection':
                 da, db_ = inst.attrs['other'].attrs['dict'], back.attrs['other'].attrs['dict']
                 ka = sorted((k, attr_key(it, v)) for k, v in da.d.items())
